@@ -579,3 +579,202 @@ def o_c02(tr):
 
 
 
+
+
+# ---------------------------------------------------------------------------------------
+# recovery oracles (C09, C10) from the event stream
+# ---------------------------------------------------------------------------------------
+
+MET_RE = re.compile(r"min_rtt: ([^,]+), smoothed_rtt: ([^,]+), latest_rtt: ([^,]+), rtt_variance: ([^,]+), max_ack_delay: ([^,]+), "
+                    r"pto_count: (\d+), congestion_window: (\d+), bytes_in_flight: (\d+), congestion_limited: (\w+)")
+SPACE_OF = {"Initial": "initial", "Handshake": "handshake", "OneRtt": "app", "ZeroRtt": "app"}
+
+
+def metrics(text):
+    m = MET_RE.search(text)
+    if not m:
+        return None
+    return {"min_rtt": dur_us(m.group(1)), "srtt": dur_us(m.group(2)), "latest": dur_us(m.group(3)), "var": dur_us(m.group(4)),
+            "mad": dur_us(m.group(5)), "pto_count": int(m.group(6)), "cwnd": int(m.group(7)), "bif": int(m.group(8)),
+            "limited": m.group(9) == "true"}
+
+
+def recovery_view(tr, ep):
+    """per endpoint: ordered list of recovery-relevant records"""
+    out = []
+    pending_tx = {}
+    for r in tr.recs:
+        if r.ep != ep if r.kind in ("ev", "txp", "rxp") else True:
+            continue
+        if r.kind == "txp":
+            pending_tx[(r.space, r.pn)] = r
+        elif r.kind == "ev":
+            if r.name == "transport:packet_sent":
+                m = re.search(r"packet_header: (\w+) \{ number: (\d+).*packet_len: (\d+), transmission_mode: (\w+)", r.text)
+                if m and m.group(1) in SPACE_OF:
+                    sp = SPACE_OF[m.group(1)]
+                    pn = int(m.group(2))
+                    txp = pending_tx.get((sp, pn))
+                    cc = True
+                    ae = True
+                    if txp is not None:
+                        types = [f["type"] for f in txp.frames]
+                        cc = any(t not in ("ACK", "PADDING") for t in types)
+                        ae = any(t not in ("ACK", "PADDING", "CONNECTION_CLOSE") for t in types)
+                    out.append(("sent", r.t, sp, pn, int(m.group(3)), m.group(4), cc, ae))
+            elif r.name == "recovery:ack_range_received":
+                m = re.search(r"packet_header: (\w+).*ack_range: (\d+)\.\.=(\d+)", r.text)
+                if m and m.group(1) in SPACE_OF:
+                    out.append(("acked", r.t, SPACE_OF[m.group(1)], int(m.group(2)), int(m.group(3))))
+            elif r.name == "recovery:packet_lost":
+                m = re.search(r"packet_header: (\w+) \{ number: (\d+).*bytes_lost: (\d+), is_mtu_probe: (\w+)", r.text)
+                if m and m.group(1) in SPACE_OF:
+                    out.append(("lost", r.t, SPACE_OF[m.group(1)], int(m.group(2)), int(m.group(3)), m.group(4) == "true"))
+            elif r.name == "recovery:metrics_updated":
+                mm = metrics(r.text)
+                if mm:
+                    out.append(("metrics", r.t, mm))
+            elif r.name == "security:key_space_discarded":
+                m = re.search(r"space: (\w+)", r.text)
+                if m:
+                    out.append(("discard", r.t, SPACE_OF.get(m.group(1), m.group(1))))
+            elif r.name == "connectivity:mtu_updated":
+                m = re.search(r"mtu: (\d+)", r.text)
+                if m:
+                    out.append(("mtu", r.t, int(m.group(1))))
+            elif r.name == "connectivity:connection_closed":
+                out.append(("closed", r.t))
+    return out
+
+
+def o_c09(tr):
+    """loss declarations are justified (RFC 9002 §6.1), every packet resolved once, bytes in flight exact"""
+    bad = []
+    for ep in ("c", "s"):
+        view = recovery_view(tr, ep)
+        sent = {}         # (space, pn) -> (t, len, cc)
+        resolved = {}
+        largest_acked = {}
+        mets = [(i, v[2]) for i, v in enumerate(view) if v[0] == "metrics"]
+        bif = 0
+        armed = False      # exact bytes-in-flight comparison starts once the handshake spaces are gone
+        residue = 0
+        hs_gone = False
+        disc_last = 0
+        disc_t, disc_bytes = -1, 0      # bytes discarded at this instant (the metrics event emitted during a
+                                        # key discard is published before the counter is reduced)
+
+        def snapshots(i):
+            prev = [m for j, m in mets if j < i][-1:]
+            nxt = [m for j, m in mets if j > i][:1]
+            return prev + nxt
+        for i, v in enumerate(view):
+            kind = v[0]
+            if kind == "closed":
+                break       # a closing connection no longer runs loss recovery
+            if kind == "sent":
+                _, t, sp, pn, ln, mode, cc, ae = v
+                sent[(sp, pn)] = (t, ln, cc)
+                if cc:
+                    bif += ln
+            elif kind == "acked":
+                _, t, sp, lo, hi = v
+                for pn in range(lo, hi + 1):
+                    k = (sp, pn)
+                    if k in sent and k not in resolved:
+                        resolved[k] = "acked"
+                        if sent[k][2]:
+                            bif -= sent[k][1]
+                largest_acked[sp] = max(largest_acked.get(sp, -1), hi)
+            elif kind == "lost":
+                _, t, sp, pn, nbytes, probe = v
+                k = (sp, pn)
+                if k not in sent:
+                    bad.append(("e2e:c09:lost-unsent", f"endpoint {ep}: {sp} packet {pn} declared lost but never sent"))
+                    continue
+                if k in resolved:
+                    bad.append(("e2e:c09:resolved-twice", f"endpoint {ep}: {sp} packet {pn} declared lost after being {resolved[k]}"))
+                    continue
+                resolved[k] = "lost"
+                if sent[k][2]:
+                    bif -= sent[k][1]
+                la = largest_acked.get(sp, -1)
+                if la <= pn:
+                    bad.append(("e2e:c09:lost-without-later-ack", f"endpoint {ep}: {sp} packet {pn} declared lost at {t}us but no later packet was acknowledged (largest acked {la})"))
+                    continue
+                if la - pn >= 3:
+                    continue
+                elapsed = t - sent[k][0]
+                snaps = snapshots(i)
+                if not snaps:
+                    continue
+                thr = min(max(9 * max(m["srtt"], m["latest"]) / 8, 1000.0) for m in snaps)
+                if elapsed + 1 >= thr:
+                    continue
+                if elapsed + 1000 + 1 >= thr:
+                    bad.append(("e2e:c09:loss:time-threshold-early-within-granularity", f"endpoint {ep}: {sp} packet {pn} declared lost {elapsed}us after sending, time threshold {thr:.0f}us (within the 1 ms timer granularity)"))
+                else:
+                    bad.append(("e2e:c09:loss:time-threshold-early", f"endpoint {ep}: {sp} packet {pn} (largest acked {la}) declared lost {elapsed}us after sending, time threshold is {thr:.0f}us"))
+            elif kind == "discard":
+                _, t, sp = v
+                if disc_t != t:
+                    disc_t, disc_bytes = t, 0
+                disc_last = 0
+                if sp == "handshake":
+                    hs_gone = True
+                for k in list(sent):
+                    if k[0] == sp and k not in resolved:
+                        resolved[k] = "discarded"
+                        if sent[k][2]:
+                            bif -= sent[k][1]
+                            disc_bytes += sent[k][1]
+                            disc_last += sent[k][1]
+            elif kind == "metrics":
+                m = v[2]
+                if bif < 0:
+                    bad.append(("e2e:c09:bif-negative", f"endpoint {ep}: computed bytes in flight negative"))
+                # exact accounting for the application space; packets of the handshake spaces that are
+                # still unresolved form a residue that may only shrink
+                app_out = sum(sent[k][1] for k in sent if k[0] == "app" and k not in resolved and sent[k][2])
+                res = m["bif"] - app_out
+                if hs_gone and v[1] > disc_t:
+                    if res < 0:
+                        bad.append(("e2e:c09:bytes-in-flight:under", f"endpoint {ep} at {v[1]}us reports bytes_in_flight {m['bif']} but unresolved congestion-controlled 1-RTT packets alone sum to {app_out}"))
+                    elif armed and res > residue:
+                        bad.append(("e2e:c09:bytes-in-flight:leak", f"endpoint {ep} at {v[1]}us reports bytes_in_flight {m['bif']}; unresolved 1-RTT packets sum to {app_out}, excess grew from {residue} to {res}"))
+                    armed = True
+                    residue = max(res, 0)
+                if m["srtt"] is not None and m["min_rtt"] is not None and m["latest"] is not None:
+                    if m["min_rtt"] > m["latest"] + 1 or m["min_rtt"] > m["srtt"] + 1:
+                        bad.append(("e2e:c09:min-rtt", f"endpoint {ep}: min_rtt {m['min_rtt']} above latest {m['latest']} / smoothed {m['srtt']}"))
+    return bad
+
+
+def o_c10(tr):
+    """congestion window never below the controller's minimum; bytes in flight below the window when a
+    congestion-controlled packet is sent in normal mode"""
+    bad = []
+    cc = tr.params.get("cc", "cubic")
+    factor = 4 if cc == "bbr" else 2
+    for ep in ("c", "s"):
+        view = recovery_view(tr, ep)
+        mtu = 1200
+        last = None
+        prev_cwnd = None
+        for v in view:
+            if v[0] == "closed":
+                break
+            if v[0] == "mtu":
+                mtu = v[2]
+            elif v[0] == "metrics":
+                m = v[2]
+                if m["cwnd"] < factor * 1200:
+                    bad.append((f"e2e:c10:{cc}:cwnd-below-min", f"endpoint {ep}: congestion window {m['cwnd']} below {factor} x 1200"))
+                if m["cwnd"] >= 2**31:
+                    bad.append((f"e2e:c10:{cc}:cwnd-overflow", f"endpoint {ep}: congestion window {m['cwnd']}"))
+                last = m
+            elif v[0] == "sent" and last is not None:
+                _, t, sp, pn, ln, mode, ccp, ae = v
+                if ccp and mode == "Normal" and last["bif"] >= last["cwnd"] and last["bif"] > 0:
+                    bad.append((f"e2e:c10:{cc}:sent-over-window", f"endpoint {ep}: congestion-controlled {sp} packet {pn} sent in Normal mode with bytes_in_flight {last['bif']} >= cwnd {last['cwnd']}"))
+    return bad
